@@ -295,7 +295,38 @@ func checkDependencyPanics(c *Ctx, rule string, ri *reachInfo) {
 						found = true
 					}
 				})
-				if found {
+				if !found {
+					continue
+				}
+				// the handler must be able to set what the function returns after a recovered panic: the results then are the
+				// named results' cells (a function without named results returns zero values: success with nothing), so the cell
+				// of the error result has to be handed to the deferred call (argument or captured variable)
+				if f.Recover == nil {
+					continue
+				}
+				ret, isRet := f.Recover.Instrs[len(f.Recover.Instrs)-1].(*ssa.Return)
+				if !isRet || len(ret.Results) == 0 {
+					continue
+				}
+				u, isLoad := ret.Results[len(ret.Results)-1].(*ssa.UnOp)
+				if !isLoad {
+					continue // a constant nil error: the recovered panic is reported as success
+				}
+				cell := u.X
+				handed := false
+				for _, a := range d.Call.Args {
+					if a == cell {
+						handed = true
+					}
+				}
+				if mc, ok := d.Call.Value.(*ssa.MakeClosure); ok {
+					for _, bnd := range mc.Bindings {
+						if bnd == cell {
+							handed = true
+						}
+					}
+				}
+				if handed {
 					return true
 				}
 			}
@@ -334,7 +365,7 @@ func checkDependencyPanics(c *Ctx, rule string, ri *reachInfo) {
 			}
 			sites++
 			c.Check(rule, "a panic of "+qualifiedFuncName(callee)+" cannot leave "+shortFn(f)+" as a crash", call.Pos(), hasRecover(f),
-				"the dependency function can panic ("+why+") and the caller has no deferred recover: the input that takes that path ends emerge with a stack trace and exit status 2 instead of an error",
+				"the dependency function can panic ("+why+") and the caller has no deferred function that recovers and can set the caller's error result (a recover that writes into local variables leaves the results at their zero values: success with a nil table): the input that takes that path ends emerge with a stack trace, or is reported as success",
 				"grammar x; start = start | \"a\";  (a conflict between accepting the input and a reduction)")
 		})
 	}
